@@ -1,4 +1,5 @@
 import Gaftools.Props.C15Hist
+import Gaftools.Props.TieA
 #print axioms Gaftools.C15.findComp_exact
 #print axioms Gaftools.C15.components_partition
 #print axioms Gaftools.C15.dfs_once
@@ -8,3 +9,4 @@ import Gaftools.Props.C15Hist
 #print axioms Gaftools.C15.history_eq_build
 #print axioms Gaftools.C15.history_symmetric
 #print axioms Gaftools.C15.history_no_dangling
+#print axioms Gaftools.TieA.eDir_gen_eq_model
